@@ -315,6 +315,14 @@ impl Task {
     }
 
     pub fn set_state(&self, state: TaskState) {
+        #[cfg(feature = "verif")]
+        crate::verif::state_write(
+            &self.pid,
+            &self.id,
+            "set_state",
+            &self.state().to_string(),
+            &state.to_string(),
+        );
         if state.is_completed() {
             self.set_end_time(utils::time::time_millis());
 
@@ -346,6 +354,14 @@ impl Task {
     }
 
     pub fn set_pure_state(&self, state: TaskState) {
+        #[cfg(feature = "verif")]
+        crate::verif::state_write(
+            &self.pid,
+            &self.id,
+            "set_pure_state",
+            &self.state().to_string(),
+            &state.to_string(),
+        );
         *self.state.write().unwrap() = state;
     }
 
